@@ -262,6 +262,40 @@ func init() {
 	}
 }
 
+func init() {
+	areas["transfer"] = &area{
+		name:   "transfer",
+		module: "TransferGen",
+		header: []string{
+			"From Coq Require Import ZArith List Bool String Ascii.",
+			"From Shoot Require Import Base.Str Bridge.GoPrims.",
+		},
+		world: "unit",
+		funcs: []fnSpec{
+			{file: "internal/transfer/transfer.go", name: "IsUpper"},
+			{file: "internal/transfer/transfer.go", name: "IsLower"},
+			{file: "internal/transfer/transfer.go", name: "ToUpper"},
+			{file: "internal/transfer/transfer.go", name: "ToLower"},
+			{file: "internal/transfer/transfer.go", name: "FirstLowerLetter"},
+			{file: "internal/transfer/transfer.go", name: "ToPascalCase"},
+			{file: "internal/transfer/transfer.go", name: "splitCamelTokensASCII"},
+			{file: "internal/transfer/transfer.go", name: "ToCamelCase"},
+			{file: "internal/transfer/transfer.go", name: "ToCamelCaseGO"},
+		},
+		types: map[string]string{
+			"int": "Z", "bool": "bool", "string": "string", "byte": "ascii", "[]byte": "string", "[]string": "(list string)",
+		},
+		ptrs: map[string]bool{},
+		prims: map[string]prim{
+			"strings.ToUpper": {coq: "Str.upper", args: []int{0}, results: []string{"string"}},
+			"strings.ToLower": {coq: "Str.lower", args: []int{0}, results: []string{"string"}},
+			"strings.Split":   {coq: "go_split", args: []int{0, 1}, results: []string{"[]string"}},
+			"strings.Join":    {coq: "Str.join", args: []int{1, 0}, results: []string{"string"}},
+		},
+		nilPan: "PNilDeref",
+	}
+}
+
 // ------------------------------------------------------------- diagnostics
 
 type unsupported struct{ msg string }
@@ -490,6 +524,7 @@ func (t *translator) resType() string { return "outcome " + t.fn + "_ret * " + t
 
 // a translated function that later ones may call
 type signature struct {
+	pure    bool     // a plain Gallina function (no world, cannot panic): callable inside expressions
 	params  []string // Go types of the (non-erased) parameters, in order
 	results []string // Go types of the results (outs excluded)
 	nouts   int
@@ -522,6 +557,52 @@ func (t *translator) typeIdOf(c *ast.CallExpr) (string, bool) {
 
 // ---- expressions
 
+func isStr(typ string) bool { return typ == "string" || typ == "[]byte" }
+
+// a conversion T(x) written with a type expression: []byte(x), string(x)
+func convTarget(c *ast.CallExpr) string {
+	if len(c.Args) != 1 {
+		return ""
+	}
+	switch f := c.Fun.(type) {
+	case *ast.ArrayType:
+		if f.Len == nil {
+			if id, ok := f.Elt.(*ast.Ident); ok && id.Name == "byte" {
+				return "[]byte"
+			}
+		}
+	case *ast.Ident:
+		if f.Name == "string" {
+			return "string"
+		}
+	}
+	return ""
+}
+
+// the value of a byte expression as an integer term (byte arithmetic is done in Z and reduced mod 256 at the end)
+func (t *translator) byteZ(e ast.Expr, ev *env, sub func(ast.Expr, string) string) string {
+	switch x := e.(type) {
+	case *ast.ParenExpr:
+		return t.byteZ(x.X, ev, sub)
+	case *ast.BinaryExpr:
+		if x.Op == token.ADD || x.Op == token.SUB {
+			return "(" + t.byteZ(x.X, ev, sub) + " " + x.Op.String() + " " + t.byteZ(x.Y, ev, sub) + ")"
+		}
+	case *ast.BasicLit:
+		if x.Kind == token.CHAR {
+			r, _, _, err := strconv.UnquoteChar(x.Value[1:len(x.Value)-1], '\'')
+			if err != nil || r > 127 {
+				unsup(x, "character literal %s", x.Value)
+			}
+			return strconv.Itoa(int(r))
+		}
+		if x.Kind == token.INT {
+			return x.Value
+		}
+	}
+	return "(byte_z " + sub(e, "byte") + ")"
+}
+
 func (t *translator) typeOf(e ast.Expr, ev *env) string {
 	switch x := e.(type) {
 	case *ast.ParenExpr:
@@ -546,8 +627,16 @@ func (t *translator) typeOf(e ast.Expr, ev *env) string {
 			return "int"
 		case token.STRING:
 			return "string"
+		case token.CHAR:
+			return "byte"
 		}
 		unsup(x, "literal %s", x.Value)
+	case *ast.SliceExpr:
+		xt := t.typeOf(x.X, ev)
+		if !isStr(xt) || x.Slice3 {
+			unsup(x, "slice expression on a %s", xt)
+		}
+		return xt
 	case *ast.UnaryExpr:
 		if x.Op == token.NOT {
 			return "bool"
@@ -580,6 +669,9 @@ func (t *translator) typeOf(e ast.Expr, ev *env) string {
 		unsup(x, "field %s of type %s (not in the field table)", x.Sel.Name, xt)
 	case *ast.IndexExpr:
 		xt := t.typeOf(x.X, ev)
+		if isStr(xt) {
+			return "byte"
+		}
 		if strings.HasPrefix(xt, "[]") {
 			return xt[2:]
 		}
@@ -602,6 +694,14 @@ func (t *translator) typeOf(e ast.Expr, ev *env) string {
 		}
 		if id, ok := x.Fun.(*ast.Ident); ok && id.Name == "new" && len(x.Args) == 1 {
 			return "*" + typeString(x.Args[0])
+		}
+		if ct := convTarget(x); ct != "" {
+			return ct
+		}
+		if id, ok := x.Fun.(*ast.Ident); ok {
+			if sg, isFn := t.sigs[id.Name]; isFn && sg.pure && ev.index[id.Name] == nil {
+				return sg.results[0]
+			}
 		}
 		if id, ok := x.Fun.(*ast.Ident); ok && id.Name == "any" && len(x.Args) == 1 {
 			return t.typeOf(x.Args[0], ev)
@@ -720,6 +820,9 @@ func (t *translator) mayPanic(e ast.Expr, ev *env) bool {
 		if _, ok := n.(*ast.IndexExpr); ok {
 			found = true
 		}
+		if _, ok := n.(*ast.SliceExpr); ok {
+			found = true
+		}
 		if c, ok := n.(*ast.CallExpr); ok {
 			if cl, isCallable := t.callableOf(c, ev); isCallable && cl.nilable {
 				found = true
@@ -779,6 +882,15 @@ func (t *translator) pure(e ast.Expr, ev *env, want string) string {
 			}
 			v, _ := strconv.ParseInt(x.Value, 0, 64)
 			return strconv.FormatInt(v, 10)
+		case token.CHAR:
+			r, _, _, err := strconv.UnquoteChar(x.Value[1:len(x.Value)-1], '\'')
+			if err != nil || r < 32 || r > 126 {
+				unsup(x, "character literal %s", x.Value)
+			}
+			if r == '"' {
+				return "\"\"\"\"%char"
+			}
+			return "\"" + string(r) + "\"%char"
 		case token.STRING:
 			s, err := strconv.Unquote(x.Value)
 			if err != nil {
@@ -823,7 +935,32 @@ func (t *translator) pure(e ast.Expr, ev *env, want string) string {
 		return t.pure(x.X, ev, "")
 	case *ast.CallExpr:
 		if id, ok := x.Fun.(*ast.Ident); ok && id.Name == "len" && len(x.Args) == 1 {
+			if isStr(t.typeOf(x.Args[0], ev)) {
+				return "(str_len " + t.pure(x.Args[0], ev, "") + ")"
+			}
 			return "(Z.of_nat (List.length " + t.pure(x.Args[0], ev, "") + "))"
+		}
+		if ct := convTarget(x); ct != "" {
+			at := t.typeOf(x.Args[0], ev)
+			switch {
+			case isStr(at):
+				return t.pure(x.Args[0], ev, at) // []byte(s), string(bytes), string(s): the same byte sequence
+			case at == "byte" && ct == "string":
+				return "(String " + t.pure(x.Args[0], ev, "byte") + " EmptyString)" // ASCII only (see docs)
+			}
+			unsup(x, "conversion of a %s to %s", at, ct)
+		}
+		if id, ok := x.Fun.(*ast.Ident); ok {
+			if sg, isFn := t.sigs[id.Name]; isFn && sg.pure && ev.index[id.Name] == nil {
+				if len(x.Args) != len(sg.params) {
+					unsup(x, "call of %s with %d arguments", id.Name, len(x.Args))
+				}
+				call := "(" + id.Name
+				for i, a := range x.Args {
+					call += " " + t.pure(a, ev, sg.params[i])
+				}
+				return call + ")"
+			}
 		}
 		if id, ok := x.Fun.(*ast.Ident); ok && id.Name == "new" && len(x.Args) == 1 {
 			term, known := t.a.news[typeString(x.Args[0])]
@@ -930,6 +1067,23 @@ func (t *translator) binary(x *ast.BinaryExpr, ev *env, sub func(ast.Expr, strin
 	}
 	if rt := t.typeOf(x.Y, ev); rt != lt && rt != "int" && lt != "int" && rt != "nil" {
 		unsup(x, "operator %s on a %s and a %s", x.Op, lt, rt)
+	}
+	if lt == "byte" {
+		switch x.Op {
+		case token.ADD, token.SUB:
+			return "(byte_of_z " + t.byteZ(x, ev, sub) + ")"
+		case token.EQL, token.NEQ, token.LSS, token.LEQ, token.GTR, token.GEQ:
+			op := map[token.Token]string{token.EQL: "=?", token.NEQ: "=?", token.LSS: "<?", token.LEQ: "<=?", token.GTR: ">?", token.GEQ: ">=?"}[x.Op]
+			c := "(" + t.byteZ(x.X, ev, sub) + " " + op + " " + t.byteZ(x.Y, ev, sub) + ")"
+			if x.Op == token.NEQ {
+				c = "(negb " + c + ")"
+			}
+			return c
+		}
+		unsup(x, "operator %s on bytes", x.Op)
+	}
+	if lt == "string" && x.Op == token.ADD {
+		return "(" + sub(x.X, lt) + " ++ " + sub(x.Y, lt) + ")%string"
 	}
 	l, r := sub(x.X, lt), sub(x.Y, lt)
 	isInt := lt == "int" || lt == "time.Duration" || t.a.ints[lt]
@@ -1047,12 +1201,45 @@ func (t *translator) exprK(e ast.Expr, ev *env, want string, k func(string) stri
 	}
 	if ix, ok := e.(*ast.IndexExpr); ok {
 		// xs[i]: xs, then i, then the bounds check
+		get := "go_index"
+		if isStr(t.typeOf(ix.X, ev)) {
+			get = "str_get"
+		}
 		return t.exprK(ix.X, ev, "", func(xs string) string {
 			return t.exprK(ix.Index, ev, "int", func(i string) string {
 				d := t.fresh("e")
-				return "(match go_index " + xs + " " + i + " with None => (Panicked PIndex, w) | Some " + d + " => " + k(d) + " end)"
+				return "(match " + get + " " + xs + " " + i + " with None => (Panicked PIndex, w) | Some " + d + " => " + k(d) + " end)"
 			})
 		})
+	}
+	if sl, ok := e.(*ast.SliceExpr); ok {
+		t.typeOf(sl, ev)
+		return t.exprK(sl.X, ev, "", func(xs string) string {
+			lo := func(k2 func(string) string) string {
+				if sl.Low == nil {
+					return k2("0")
+				}
+				return t.exprK(sl.Low, ev, "int", k2)
+			}
+			hi := func(k2 func(string) string) string {
+				if sl.High == nil {
+					return k2("(str_len " + xs + ")")
+				}
+				return t.exprK(sl.High, ev, "int", k2)
+			}
+			return lo(func(l string) string {
+				return hi(func(h string) string {
+					d := t.fresh("s")
+					return "(match str_slice " + xs + " " + l + " " + h + " with None => (Panicked PIndex, w) | Some " + d + " => " + k(d) + " end)"
+				})
+			})
+		})
+	}
+	if c, ok := e.(*ast.CallExpr); ok {
+		// a call whose arguments can panic: the arguments first (left to right), then the call on their values
+		if rebuilt, okc := t.callWithValues(c, ev, k); okc {
+			return rebuilt
+		}
 	}
 	if c, ok := e.(*ast.CallExpr); ok {
 		if cl, isCallable := t.callableOf(c, ev); isCallable && !cl.mutate && cl.result != "" {
@@ -1073,6 +1260,57 @@ func (t *translator) exprK(e ast.Expr, ev *env, want string, k func(string) stri
 	return ""
 }
 
+// f(a1, ..., an) where some ai can panic and f is total (a primitive without world, append, len, a
+// conversion, a pure function of the area): evaluate the ai in order, bind them, call f on the names
+func (t *translator) callWithValues(c *ast.CallExpr, ev *env, k func(string) string) (string, bool) {
+	total := false
+	if id, ok := c.Fun.(*ast.Ident); ok {
+		if id.Name == "len" || (id.Name == "append" && c.Ellipsis == token.NoPos) {
+			total = true
+		}
+		if sg, isFn := t.sigs[id.Name]; isFn && sg.pure && ev.index[id.Name] == nil {
+			total = true
+		}
+	}
+	if convTarget(c) != "" {
+		total = true
+	}
+	if !total {
+		if _, isCallable := t.callableOf(c, ev); !isCallable {
+			if key := exprKey(c.Fun); key != "" {
+				if p, isPrim := t.a.prims[key]; isPrim && !p.world && !p.recv && len(p.results) == 1 {
+					total = true
+				}
+			}
+		}
+	}
+	if !total {
+		return "", false
+	}
+	e2 := ev.clone()
+	args := make([]ast.Expr, len(c.Args))
+	var build func(i int) string
+	build = func(i int) string {
+		if i == len(c.Args) {
+			nc := &ast.CallExpr{Fun: c.Fun, Args: args, Lparen: c.Lparen, Rparen: c.Rparen}
+			return k(t.pure(nc, e2, ""))
+		}
+		a := c.Args[i]
+		if !t.mayPanic(a, ev) {
+			args[i] = a
+			return build(i + 1)
+		}
+		at := t.typeOf(a, ev)
+		return t.exprK(a, ev, at, func(term string) string {
+			n := t.fresh("a")
+			e2.add(n, at, 3).def = term
+			args[i] = ast.NewIdent(n)
+			return build(i + 1)
+		})
+	}
+	return build(0), true
+}
+
 // ---- statements
 
 type loopCtx struct {
@@ -1090,6 +1328,21 @@ func assigned(stmts []ast.Stmt, ev *env) []*variable {
 			for _, l := range s.Lhs {
 				if id, ok := l.(*ast.Ident); ok && s.Tok != token.DEFINE {
 					set[id.Name] = true
+				}
+				// xs[i] = e, r.f = e, *p = e change the variable they go through
+				switch lh := l.(type) {
+				case *ast.IndexExpr:
+					if id, ok := lh.X.(*ast.Ident); ok {
+						set[id.Name] = true
+					}
+				case *ast.SelectorExpr:
+					if id, ok := lh.X.(*ast.Ident); ok {
+						set[id.Name] = true
+					}
+				case *ast.StarExpr:
+					if id, ok := lh.X.(*ast.Ident); ok {
+						set[id.Name] = true
+					}
 				}
 			}
 		case *ast.IncDecStmt:
@@ -1438,7 +1691,7 @@ func (t *translator) assign(x *ast.AssignStmt, ev *env, cont func(*env) string) 
 		}
 		be := &ast.BinaryExpr{X: id, Op: op, Y: x.Rhs[0], OpPos: x.TokPos}
 		if t.mayPanic(be, ev) {
-			unsup(x, "compound assignment that can panic")
+			return t.assign(&ast.AssignStmt{Lhs: []ast.Expr{id}, Tok: token.ASSIGN, TokPos: x.TokPos, Rhs: []ast.Expr{be}}, ev, cont)
 		}
 		return "(let " + id.Name + " := " + t.pure(be, ev, "") + " in\n" + cont(ev) + ")"
 	}
@@ -1464,7 +1717,26 @@ func (t *translator) assign(x *ast.AssignStmt, ev *env, cont func(*env) string) 
 		if ix, ok := x.Lhs[0].(*ast.IndexExpr); ok {
 			gid, isId := ix.X.(*ast.Ident)
 			if !isId {
-				unsup(ix, "assignment to an element of something that is not a package-level map")
+				unsup(ix, "assignment to an element of something that is not a variable")
+			}
+			if lv, isLocal := ev.index[gid.Name]; isLocal {
+				// xs[i] = e on a local slice: index, then value, then the bounds check
+				set, et := "list_set", ""
+				switch {
+				case lv.typ == "[]byte":
+					set, et = "str_set", "byte"
+				case strings.HasPrefix(lv.typ, "[]"):
+					et = lv.typ[2:]
+				default:
+					unsup(ix, "assignment to an element of a %s", lv.typ)
+				}
+				return t.exprK(ix.Index, ev, "int", func(i string) string {
+					return t.exprK(x.Rhs[0], ev, et, func(v string) string {
+						d := t.fresh("u")
+						return "(match " + set + " " + gid.Name + " " + i + " " + v + " with None => (Panicked PIndex, w) | Some " + d + " =>\n" +
+							"(let " + gid.Name + " : " + t.coqType(x, lv.typ) + " := " + d + " in\n" + cont(ev) + ") end)"
+					})
+				})
 			}
 			g, isGlobal := t.a.globals[gid.Name]
 			if _, local := ev.index[gid.Name]; !isGlobal || local {
@@ -1603,7 +1875,20 @@ func (t *translator) assign(x *ast.AssignStmt, ev *env, cont func(*env) string) 
 		if c, ok := x.Rhs[0].(*ast.CallExpr); ok {
 			_, isCallable := t.callableOf(c, ev)
 			_, isTypeId := t.typeIdOf(c)
-			if id, isId := c.Fun.(*ast.Ident); !(isId && (id.Name == "len" || id.Name == "append" || id.Name == "new" || id.Name == "any")) && !isCallable && !isTypeId {
+			isPureFn := false
+			if id, isId := c.Fun.(*ast.Ident); isId {
+				if sg, isFn := t.sigs[id.Name]; isFn && sg.pure && ev.index[id.Name] == nil {
+					isPureFn = true
+				}
+			}
+			argsPanic := false
+			for _, a := range c.Args {
+				if t.mayPanic(a, ev) {
+					argsPanic = true
+				}
+			}
+			if id, isId := c.Fun.(*ast.Ident); !(isId && (id.Name == "len" || id.Name == "append" || id.Name == "new" || id.Name == "any")) &&
+				!isCallable && !isTypeId && convTarget(c) == "" && !isPureFn && !argsPanic {
 				p, key := t.primOf(c, ev)
 				if len(p.results) != len(lhs) {
 					unsup(x, "%s returns %d values, %d expected", key, len(p.results), len(lhs))
@@ -1832,11 +2117,14 @@ func (t *translator) pkgFiles() []*ast.File {
 
 // for _, x := range xs { body }  followed by rest: structural recursion on the slice
 func (t *translator) rangeStmt(x *ast.RangeStmt, rest []ast.Stmt, ev *env, k func(*env) string) string {
-	if x.Tok != token.DEFINE || x.Value == nil {
-		unsup(x, "range loop without `_, x := range`")
+	if x.Tok != token.DEFINE {
+		unsup(x, "range loop that assigns to existing variables")
 	}
-	if kid, ok := x.Key.(*ast.Ident); !ok || kid.Name != "_" {
-		unsup(x, "range loop that uses the index")
+	if kid, ok := x.Key.(*ast.Ident); ok && kid.Name != "_" {
+		return t.rangeIndexStmt(x, rest, ev, k)
+	}
+	if x.Value == nil {
+		unsup(x, "range loop without variables")
 	}
 	vid, ok := x.Value.(*ast.Ident)
 	if !ok {
@@ -1939,6 +2227,9 @@ func used(nodes []ast.Node) map[string]bool {
 
 // for i := lo; i <op> hi; i++ / i-- { body }  followed by rest
 func (t *translator) forStmt(x *ast.ForStmt, rest []ast.Stmt, ev *env, k func(*env) string) string {
+	if x.Init == nil && x.Post == nil && x.Cond != nil {
+		return t.whileStmt(x, rest, ev, k)
+	}
 	init, ok := x.Init.(*ast.AssignStmt)
 	if !ok || init.Tok != token.DEFINE || len(init.Lhs) != 1 || len(init.Rhs) != 1 {
 		unsup(x, "loop without a counter initialised by `i := e`")
@@ -2032,12 +2323,36 @@ func (t *translator) forStmt(x *ast.ForStmt, rest []ast.Stmt, ev *env, k func(*e
 	if bodyAssign[cname] {
 		unsup(x, "loop body assigns the counter %s", cname)
 	}
+	return t.fuelLoop(&fuelLoop{node: x, counter: cname, lo: lo, step: step, fuel: fuel, condE: x.Cond, body: x.Body.List},
+		carried, rest, ev, k)
+}
+
+// a loop translated to recursion on fuel
+type fuelLoop struct {
+	node    ast.Node
+	counter string    // "" : a while loop (its counter is one of the carried variables)
+	lo      string    // initial value of the counter
+	step    int       // +1 / -1
+	fuel    string    // term of type nat
+	condE   ast.Expr  // the condition (evaluated in every iteration; it may panic)
+	body    []ast.Stmt
+	extra   []*variable // further loop-invariant variables bound by the caller (range snapshots)
+	value   *ast.Ident  // range loops: the element variable, bound to seq[counter] at the start of an iteration
+	seq     ast.Expr    // ... of this slice
+}
+
+func (t *translator) fuelLoop(l *fuelLoop, carried []*variable, rest []ast.Stmt, ev *env, k func(*env) string) string {
 	t.nLoop++
 	n := strconv.Itoa(t.nLoop)
 	loopName, afterName := t.fn+"_loop"+n, t.fn+"_after"+n
-	// locals (not parameters, not carried) that the loop or the code after it reads
-	var nodes []ast.Node
-	nodes = append(nodes, x)
+	// variables (not carried) that the loop or the code after it reads
+	nodes := []ast.Node{l.condE}
+	for _, st := range l.body {
+		nodes = append(nodes, st)
+	}
+	if l.seq != nil {
+		nodes = append(nodes, l.seq)
+	}
 	for _, r := range rest {
 		nodes = append(nodes, r)
 	}
@@ -2046,13 +2361,17 @@ func (t *translator) forStmt(x *ast.ForStmt, rest []ast.Stmt, ev *env, k func(*e
 	for _, v := range carried {
 		isCarried[v.name] = true
 	}
-	var locals []*variable
-	for _, v := range ev.vars {
-		if v.kind == 1 && !isCarried[v.name] && use[v.name] {
-			locals = append(locals, v)
+	var fixed []*variable
+	for _, v := range t.pars {
+		if !isCarried[v.name] {
+			fixed = append(fixed, v)
 		}
 	}
-	fixed := append(append([]*variable{}, t.pars...), locals...)
+	for _, v := range ev.vars {
+		if v.kind == 1 && !isCarried[v.name] && use[v.name] {
+			fixed = append(fixed, v)
+		}
+	}
 	// after the loop
 	saveJ := t.nJoin
 	afterBody := t.block(rest, ev, nil, true, k)
@@ -2061,24 +2380,178 @@ func (t *translator) forStmt(x *ast.ForStmt, rest []ast.Stmt, ev *env, k func(*e
 	callAfter := func(*env) string { return afterName + t.idNames() + names(fixed) + names(carried) + " w" }
 	// the loop itself
 	evBody := ev.nest()
-	evBody.add(cname, "int", 1)
-	stepOp := "+"
-	if step < 0 {
-		stepOp = "-"
+	cpar, cnext := "", ""
+	if l.counter != "" {
+		evBody.add(l.counter, "int", 1)
+		op := "+"
+		if l.step < 0 {
+			op = "-"
+		}
+		cpar = " (" + l.counter + " : Z)"
+		cnext = " (" + l.counter + " " + op + " 1)"
 	}
 	lc := &loopCtx{
 		next: func(*env) string {
-			return loopName + t.idNames() + names(fixed) + " fuel' (" + cname + " " + stepOp + " 1)" + names(carried) + " w"
+			return loopName + t.idNames() + names(fixed) + " fuel'" + cnext + names(carried) + " w"
 		},
 		exit: callAfter,
 	}
-	condT := t.pure(x.Cond, evBody, "bool")
-	bodyT := t.block(x.Body.List, evBody.clone(), lc, false, func(*env) string { return lc.next(nil) })
-	t.emit(loopName, "Fixpoint "+loopName+t.idParams()+t.params(fixed)+" (fuel : nat) ("+cname+" : Z)"+t.params(carried)+" (w : "+t.worldT()+") {struct fuel}\n  : "+t.resType()+" :=\n"+
+	bodyEnv := evBody.clone()
+	inner := func(e2 *env) string {
+		return t.block(l.body, e2, lc, false, func(*env) string { return lc.next(nil) })
+	}
+	var bodyT string
+	if l.value != nil {
+		// v := seq[counter]
+		vname := checkName(l.value)
+		if _, dup := bodyEnv.index[vname]; dup {
+			unsup(l.value, "loop variable %s shadows another variable", vname)
+		}
+		st := t.typeOf(l.seq, bodyEnv)
+		if !strings.HasPrefix(st, "[]") {
+			unsup(l.seq, "range over a %s", st)
+		}
+		ix := &ast.IndexExpr{X: l.seq, Index: ast.NewIdent(l.counter)}
+		bodyT = t.exprK(ix, bodyEnv, st[2:], func(e string) string {
+			e2 := bodyEnv.clone()
+			e2.add(vname, st[2:], 1)
+			return "(let " + vname + " : " + t.coqType(l.value, st[2:]) + " := " + e + " in\n" + inner(e2) + ")"
+		})
+	} else {
+		bodyT = inner(bodyEnv)
+	}
+	cond := func(thenT string) string {
+		if !t.mayPanic(l.condE, evBody) {
+			return "(if " + t.pure(l.condE, evBody, "bool") + "\n    then " + thenT + "\n    else " + callAfter(nil) + ")"
+		}
+		jc := t.join()
+		return "(let " + jc + " := fun (c' : bool) => (if c' then " + thenT + " else " + callAfter(nil) + ") in\n" +
+			t.exprK(l.condE, evBody, "bool", func(c string) string { return jc + " " + c }) + ")"
+	}
+	t.emit(loopName, "Fixpoint "+loopName+t.idParams()+t.params(fixed)+" (fuel : nat)"+cpar+t.params(carried)+" (w : "+t.worldT()+") {struct fuel}\n  : "+t.resType()+" :=\n"+
 		"  match fuel with\n"+
-		"  | O => if "+condT+" then (OutOfFuel, w) else "+callAfter(nil)+"\n"+
-		"  | S fuel' =>\n    if "+condT+"\n    then "+bodyT+"\n    else "+callAfter(nil)+"\n  end.")
-	return loopName + t.idNames() + names(fixed) + " " + fuel + " " + lo + names(carried) + " w"
+		"  | O => "+cond("(OutOfFuel, w)")+"\n"+
+		"  | S fuel' => "+cond(bodyT)+"\n  end.")
+	start := ""
+	if l.counter != "" {
+		start = " " + l.lo
+	}
+	return loopName + t.idNames() + names(fixed) + " " + l.fuel + start + names(carried) + " w"
+}
+
+// for i < B && rest { ...; i++ }  (no init, no post): i is a variable declared before the loop
+func (t *translator) whileStmt(x *ast.ForStmt, rest []ast.Stmt, ev *env, k func(*env) string) string {
+	first := x.Cond
+	for {
+		b, ok := first.(*ast.BinaryExpr)
+		if ok && b.Op == token.LAND {
+			first = b.X
+			continue
+		}
+		if p, isP := first.(*ast.ParenExpr); isP {
+			first = p.X
+			continue
+		}
+		break
+	}
+	cmp, ok := first.(*ast.BinaryExpr)
+	if !ok || cmp.Op != token.LSS {
+		unsup(x, "loop without init/post whose condition does not start with `i < bound`")
+	}
+	ci, ok := cmp.X.(*ast.Ident)
+	if !ok || ev.index[ci.Name] == nil || ev.index[ci.Name].typ != "int" {
+		unsup(x, "loop without init/post whose condition does not start with `i < bound`")
+	}
+	if t.mayPanic(cmp.Y, ev) {
+		unsup(x, "loop bound that can panic")
+	}
+	// the body must end in i++ and assign i nowhere else; no continue (it would skip the increment)
+	nb := len(x.Body.List)
+	if nb == 0 {
+		unsup(x, "loop without init/post and without body")
+	}
+	inc, ok := x.Body.List[nb-1].(*ast.IncDecStmt)
+	if id, isId := inc.X.(*ast.Ident); !ok || inc == nil || !isId || id.Name != ci.Name || inc.Tok != token.INC {
+		unsup(x, "loop without init/post whose body does not end in %s++", ci.Name)
+	}
+	count := 0
+	ast.Inspect(x.Body, func(n ast.Node) bool {
+		switch s := n.(type) {
+		case *ast.AssignStmt:
+			for _, lh := range s.Lhs {
+				if id, isId := lh.(*ast.Ident); isId && id.Name == ci.Name {
+					count += 2
+				}
+			}
+		case *ast.IncDecStmt:
+			if id, isId := s.X.(*ast.Ident); isId && id.Name == ci.Name {
+				count++
+			}
+		case *ast.BranchStmt:
+			if s.Tok == token.CONTINUE {
+				count += 2
+			}
+		}
+		return true
+	})
+	if count != 1 {
+		unsup(x, "loop without init/post that assigns %s more than once or uses continue", ci.Name)
+	}
+	carried := assigned(x.Body.List, ev)
+	bv := used([]ast.Node{cmp.Y})
+	for _, v := range carried {
+		if bv[v.name] {
+			unsup(x, "loop bound depends on %s, which the body assigns", v.name)
+		}
+	}
+	fuel := "(Z.to_nat (" + t.pure(cmp.Y, ev, "int") + " - " + t.pure(ci, ev, "int") + "))"
+	return t.fuelLoop(&fuelLoop{node: x, fuel: fuel, condE: x.Cond, body: x.Body.List}, carried, rest, ev, k)
+}
+
+// for i := range xs / for i, v := range xs: the length is taken once, before the loop
+func (t *translator) rangeIndexStmt(x *ast.RangeStmt, rest []ast.Stmt, ev *env, k func(*env) string) string {
+	ki := x.Key.(*ast.Ident)
+	cname := checkName(ki)
+	if _, dup := ev.index[cname]; dup {
+		unsup(ki, "loop variable %s shadows another variable", cname)
+	}
+	if t.mayPanic(x.X, ev) {
+		unsup(x.X, "ranged expression that can panic")
+	}
+	if _, isId := x.X.(*ast.Ident); !isId {
+		unsup(x.X, "range with index over something that is not a variable")
+	}
+	xt := t.typeOf(x.X, ev)
+	if !strings.HasPrefix(xt, "[]") {
+		unsup(x.X, "range over a %s", xt)
+	}
+	var val *ast.Ident
+	if x.Value != nil {
+		v, ok := x.Value.(*ast.Ident)
+		if !ok {
+			unsup(x, "range loop")
+		}
+		if v.Name != "_" {
+			val = v
+		}
+	}
+	// the length before the loop: a fresh invariant variable
+	nn := t.fresh("n")
+	e2 := ev.clone()
+	nv := e2.add(nn, "int", 1)
+	lenT := t.pure(&ast.CallExpr{Fun: ast.NewIdent("len"), Args: []ast.Expr{x.X}}, ev, "int")
+	evL := e2
+	carried := assigned(x.Body.List, evL)
+	var cs []*variable
+	for _, v := range carried {
+		if v.name != cname && (val == nil || v.name != val.Name) {
+			cs = append(cs, v)
+		}
+	}
+	cond := &ast.BinaryExpr{X: ast.NewIdent(cname), Op: token.LSS, Y: ast.NewIdent(nn)}
+	call := t.fuelLoop(&fuelLoop{node: x, counter: cname, lo: "0", step: 1, fuel: "(Z.to_nat (" + nn + " - 0))", condE: cond,
+		body: x.Body.List, extra: []*variable{nv}, value: val, seq: x.X}, cs, rest, evL, k)
+	return "(let " + nn + " : Z := " + lenT + " in\n" + call + ")"
 }
 
 func (t *translator) emit(name, def string) {
@@ -2220,6 +2693,21 @@ func (t *translator) function(fd *ast.FuncDecl, spec fnSpec) {
 			t.outs = append(t.outs, p)
 		}
 	}
+	// a function that only tests and returns panic-free expressions is a plain Gallina function
+	if len(t.ret) == 1 && len(t.outs) == 0 && len(t.idList) == 0 && len(prefix) == 0 {
+		if term, ok := t.pureBody(body, ev); ok {
+			sg := &signature{pure: true, results: t.ret}
+			for _, p := range t.pars {
+				sg.params = append(sg.params, p.typ)
+			}
+			if t.sigs == nil {
+				t.sigs = map[string]*signature{}
+			}
+			t.sigs[t.fn] = sg
+			t.emit(t.fn, "Definition "+t.fn+t.params(t.pars)+" : "+t.coqType(fd, t.ret[0])+" :=\n"+term+".")
+			return
+		}
+	}
 	t.emit(t.fn+"_ret", "Definition "+t.fn+"_ret : Type := "+t.retType()+".")
 	all := append(append([]ast.Stmt{}, prefix...), body...)
 	t.reassigned = map[string]bool{}
@@ -2231,6 +2719,11 @@ func (t *translator) function(fd *ast.FuncDecl, spec fnSpec) {
 					for _, l := range a.Lhs {
 						if id, isId := l.(*ast.Ident); isId {
 							t.reassigned[id.Name] = true
+						}
+						if ix, isIx := l.(*ast.IndexExpr); isIx {
+							if id, isId := ix.X.(*ast.Ident); isId {
+								t.reassigned[id.Name] = true
+							}
 						}
 					}
 				}
@@ -2266,6 +2759,40 @@ func (t *translator) function(fd *ast.FuncDecl, spec fnSpec) {
 	}
 	t.sigs[t.fn] = sg
 	t.emit(t.fn, "Definition "+t.fn+t.idParams()+t.params(t.pars)+" (w : "+t.worldT()+")\n  : "+t.resType()+" :=\n"+term+".")
+}
+
+// `if c { return e }` ... `return e` with panic-free expressions and no primitive that touches the world
+func (t *translator) pureBody(stmts []ast.Stmt, ev *env) (term string, ok bool) {
+	defer func() {
+		if r := recover(); r != nil {
+			if _, isU := r.(unsupported); isU {
+				term, ok = "", false
+				return
+			}
+			panic(r)
+		}
+	}()
+	var go1 func(ss []ast.Stmt) string
+	go1 = func(ss []ast.Stmt) string {
+		if len(ss) == 0 {
+			unsup(nil, "not a pure body")
+		}
+		switch x := ss[0].(type) {
+		case *ast.ReturnStmt:
+			if len(x.Results) != 1 || t.mayPanic(x.Results[0], ev) {
+				unsup(x, "not a pure body")
+			}
+			return t.pure(x.Results[0], ev, t.ret[0])
+		case *ast.IfStmt:
+			if x.Init != nil || x.Else != nil || t.mayPanic(x.Cond, ev) || !terminates(x.Body.List) {
+				unsup(x, "not a pure body")
+			}
+			return "(if " + t.pure(x.Cond, ev, "bool") + " then " + go1(x.Body.List) + " else " + go1(ss[1:]) + ")"
+		}
+		unsup(ss[0], "not a pure body")
+		return ""
+	}
+	return go1(stmts), true
 }
 
 func exprKey(e ast.Expr) string {
